@@ -30,32 +30,32 @@ func init() {
 func init() {
 	properties["C04"] = &Property{
 		Title: "decoder expands valid streams under every interleaving",
-		Rules: []string{"R-SHRINK-SAFE", "R-COMPACTORS", "R-CURSOR", "R-APPENDONLY", "R-REMAINDER", "R-OFFGUARD"},
+		Rules: []string{"R-SHRINK-SAFE", "R-COMPACTORS", "R-CURSOR", "R-APPENDONLY", "R-REMAINDER", "R-OFFGUARD", "R-DEC-RESET", "R-COUNTS-AT-END"},
 		Decided: "compaction safety (δ ≤ R, δ ≤ len−WindowSize, R re-based), writer sets of R and Data, cursor discipline, append-only writes, remainder resubmission, match-copy source guards.",
 		NotDecided: "the arithmetic of the doubling overlapped copy; functional equivalence with a reference expander.",
 	}
 	properties["C05"] = &Property{
 		Title: "malformed sequences rejected atomically, no panic",
-		Rules: []string{"R-VALIDATE-FIRST", "R-OFFGUARD", "R-BLK-READONLY", "R-COUNTS-AT-END"},
+		Rules: []string{"R-VALIDATE-FIRST", "R-OFFGUARD", "R-BLK-READONLY", "R-COUNTS-AT-END", "R-SUM", "R-SHRINK-SAFE"},
 		Decided: "no append precedes a rejection of the same sequence; the three rejections dominate the slices they protect; the caller's block arrays are never written; k/l computed at the merge of all exits.",
 		NotDecided: "absence of implicit run-time panics in general (only the explicitly guarded sites are proved).",
 	}
 	properties["C06"] = &Property{
 		Title: "every decoder call terminates",
-		Rules: []string{"R-LOOPS-DECODER", "R-OFFGUARD"},
+		Rules: []string{"R-LOOPS-DECODER", "R-OFFGUARD", "R-SHRINK-SAFE"},
 		Decided: "every loop reachable from Decoder/DecoderBuffer methods matches a termination template (range, counting, doubling copy with off ≥ 1, retry with clamp or strict progress).",
 		NotDecided: "the arithmetic side conditions of the templates for all values (argued once in DESIGN.md, only matched here).",
 		Assumptions: []string{"the destination io.Writer returns"},
 	}
 	properties["C07"] = &Property{
 		Title: "what the parsers emit, the Decoder accepts",
-		Rules: []string{"R-CAPERR", "R-WINAGREE"},
+		Rules: []string{"R-CAPERR", "R-WINAGREE", "R-DEC-HEADROOM", "R-COUNTS-AT-END", "R-REMAINDER", "R-SHRINK-SAFE", "R-OFFPAIR", "R-LOOPS-DECODER"},
 		Decided: "capacity-class errors (classified by their deciding guard) do not escape Decoder methods; the decoder's window rejection is exactly Offset > min(len, WindowSize).",
 		NotDecided: "that after acceptance the bytes are the original ones (C01 ∧ C04).",
 	}
 	properties["C17"] = &Property{
 		Title: "decoder counts and total offset are exact",
-		Rules: []string{"R-STALELEN", "R-OFFPAIR", "R-COUNTS-AT-END", "R-SUM", "R-SHRINK-SAFE"},
+		Rules: []string{"R-STALELEN", "R-OFFPAIR", "R-COUNTS-AT-END", "R-SUM", "R-SHRINK-SAFE", "R-DEC-RESET"},
 		Decided: "no stale length across compaction; Off advanced by exactly the appended count that is returned; k, l at the merge; Decoder accumulators.",
 		NotDecided: "the byte count of the doubling copy loop (template).",
 	}
